@@ -525,7 +525,9 @@ class OscScore():
         # needs to undo the check of _get_timetag and _get_logical_time.
         # Those methods and this one would need refactoring all at once.
         if _libsc3.main.current_tt is _libsc3.main.main_tt:
-            tailtime += _libsc3.main.current_tt._seconds
+            # Tail starts after the last event or bundle, whichever is later
+            # (bundles sent with latency may be beyond current time).
+            tailtime += max(_libsc3.main.current_tt._seconds, self.duration)
         self.add([tailtime, ['/c_set', 0, 0]])  # Dummy cmd.
         for _, entry in self._scoreq:
             self._lst_score.append(entry.bndl)
